@@ -26,6 +26,22 @@ def schedules(run, n):
     return out
 
 
+def table_hash_events(drive):
+    """Fresh process per (space, history): digests of the whole encode / decode table."""
+    pres = ["none", "decode", "encode", "images"]
+    out = []
+    for sp in ("srgb", "adobergb", "prophotorgb", "displayp3"):
+        enc, dec = [], []
+        for pre in pres:
+            env = dict(vlib.goenv(), GOMAXPROCS="3") if pre == "images" else vlib.goenv()
+            p = vlib.run([drive, "tablehash", "-space", sp, "-pre", pre], timeout=300, env=env)
+            d = json.loads(p.stdout.strip().splitlines()[-1])
+            enc.append(d["enc"])
+            dec.append(d["dec"])
+        out.append(json.dumps({"kind": "tablehash", "space": sp, "pre": pres, "enc": enc, "dec": dec}, separators=(",", ":")))
+    return out
+
+
 def run_proc(cmd, env):
     p = subprocess.run(cmd, env=env, capture_output=True, text=True, timeout=300)
     return p.returncode, p.stdout, p.stderr
@@ -189,9 +205,22 @@ def check(pid, tier, args):
     fu = colour.first_use_events(drive, "de")
     fpath = os.path.join(vlib.scratch(), "firstuse.ndjson")
     open(fpath, "w").write("\n".join(fu) + "\n")
+    # 5b. the CONTENT of the lazily built tables under different process histories (what was used
+    # first, and completely, before the other table was built): one digest per history and space
+    th = table_hash_events(drive)
+    with open(fpath, "a") as f:
+        f.write("\n".join(th) + "\n")
+    run.cov["table_digest_histories"] = 4
     results, rejects, lines = vlib.validate_trace("TraceColour", "TraceColour.cfg", fpath, shards=1, heap="1g")
     for res in results:
         run.add_tlc("TraceColour/firstuse", res)
+    th_rej = [(n, pr) for (n, pr) in rejects if json.loads(lines[n])["kind"] == "tablehash"]
+    rejects = [(n, pr) for (n, pr) in rejects if json.loads(lines[n])["kind"] != "tablehash"]
+    for n, pr in th_rej[:4]:
+        ev = json.loads(lines[n])
+        run.violation({"finding_key": None, "event": ev},
+                      "%s: the content of a lazily built 16-bit table depends on what the process did before it was built "
+                      "(digests per history %s: encode table %s, decode table %s)" % (ev["space"], ev["pre"], ev["enc"], ev["dec"]))
     run.cov["first_use_processes"] = len(lines)
     run.cov["traces_validated_against_impl"] += len(lines)
     for n, pr in rejects[:6]:
